@@ -1,4 +1,4 @@
 SPECIFICATION Spec
-CONSTANTS Tier = "small" GenericNopadFix = TRUE EcdsaCurveFix = TRUE KwLenFix = TRUE OpenLenFix = TRUE PadBoundFix = FALSE KidCacheFix = TRUE SharedMacFix = TRUE PoolFix = TRUE
+CONSTANTS Tier = "small" GenericNopadFix = TRUE EcdsaCurveFix = TRUE KwLenFix = TRUE OpenLenFix = TRUE PadBoundFix = FALSE KidCacheFix = TRUE SharedMacFix = TRUE PoolFix = TRUE KwInPlaceFix = TRUE DstGrowFix = TRUE
 INVARIANTS NotBad
 CHECK_DEADLOCK FALSE
